@@ -828,6 +828,46 @@ def carried(P, rep, funcs, rule="XDEP.carried"):
     rep.floor(rule, n_loops, len(funcs), "loops over the request list")
 
 
+def no_early_exit(P, rep, funcs, rule="XDEP.exit"):
+    """every property of the request is visited"""
+    rep.rule(rule, "a loop over the request list is never left early: it contains no break that targets the loop itself (breaks of an "
+                   "inner switch or inner loop are fine) and no goto; so what is done for one property does not decide whether the next "
+                   "one is processed")
+    n = 0
+    for F, prop_k in funcs:
+        for loop in F.walk():
+            is_req = False
+            if loop.get("k") == "ForStmt":
+                okl, iv, bound = forward_loop(P, F, loop)
+                bm = astq.member_call(P, bound, "size") if bound is not None else None
+                is_req = bool(bm and astq.is_ref_to(bm[0], prop_k))
+            elif loop.get("k") == "CXXForRangeStmt":
+                is_req = astq.is_ref_to(loop["c"][1], prop_k)
+            if not is_req:
+                continue
+            n += 1
+            bad = None
+            for x in F.walk(loop["c"][-1]):
+                if x.get("k") in ("BreakStmt", "GotoStmt"):
+                    tgt = None
+                    for a in F.ancestors(x):
+                        if a.get("k") in ("SwitchStmt", "ForStmt", "CXXForRangeStmt", "WhileStmt", "DoStmt"):
+                            if a.get("k") == "DoStmt" and a.get("m"):
+                                continue        # the do { } while (false) of an assertion macro
+                            tgt = a
+                            break
+                    if x.get("k") == "GotoStmt" or tgt is loop:
+                        bad = x
+                        break
+            if bad is not None:
+                rep.violation(rule, "%s: the loop over the request list is left by `%s`" % (F.qn, bad.get("k")[:-4].lower()), F.nloc(bad), F.qn, "",
+                              "the properties after the current one are not processed: a block depends on what was requested before it",
+                              key="%s|%s" % (rule, F.qn), witness="a request in which the property handled by that branch is followed by another one")
+            else:
+                rep.ok(rule, "%s: request loop at %s has no early exit" % (F.qn, F.nloc(loop)), F.nloc(loop), F.qn)
+    rep.floor(rule, n, len(funcs), "loops over the request list")
+
+
 def describe_use(F, n):
     for a in [n] + list(F.ancestors(n)) if n is not None else []:
         if a.get("k") == "IfStmt":
